@@ -41,11 +41,36 @@ def impl(case):
     machine("push_trim", lambda: mk().push.trim)
     if case.get("det"):
         machine("determinize", lambda: mk().determinize)
-        machine("min_det", lambda: mk().min_det)
+        if not case.get("no_min_det"):   # reversal of a cyclic machine is non-deterministic and cyclic: termination not guaranteed
+            machine("min_det", lambda: mk().min_det)
     return out
 
 
+def _det_cyclic(rng):
+    """a DETERMINISTIC automaton with cycles (loops through the start state included) whose states are stochastic:
+    the subset construction terminates on it (every power state is a singleton), and its total weight is exactly the
+    start weight — the acyclic family never revisits a power state, this one does"""
+    n = rng.choice([1, 2, 2, 3])
+    syms = gen.TERMS[: rng.choice([1, 2])]
+    arcs, stop = [], []
+    for q in range(n):
+        left = Fraction(1)
+        for a in syms:
+            if rng.random() < 0.75:
+                w = rng.choice([Fraction(1, 2), Fraction(1, 4), Fraction(1, 8)])
+                if w < left:
+                    arcs.append([q, a, rng.randrange(n) if rng.random() < 0.7 else 0, common.frac_str(w)])
+                    left -= w
+        stop.append([q, common.frac_str(left)])
+    start = [[0, rng.choice(["1", "1", "3", "1/2"])]]
+    return {"start": start, "stop": stop, "arcs": arcs, "syms": syms}
+
+
 def make_case(rng, i, tier):
+    if rng.random() < 0.12:
+        d = _det_cyclic(rng)
+        return {"id": i, "shape": "det_cyclic_stochastic", "wfsa": d, "xs": gen.all_strings(d["syms"], 4 if len(d["syms"]) == 1 else 3),
+                "det": True, "no_min_det": True}
     shape = rng.choice(["acyclic", "acyclic", "eps", "multi_init_final", "dead_states", "parallel", "plain", "init_is_final"])
     d, shape = gen.gen_wfsa(rng, shape=shape, nstates=rng.choice([2, 3, 4] if tier == "quick" else [2, 3, 4, 5, 6]))
     if True:
